@@ -5,7 +5,7 @@ import vlib
 LEVEL = "model_checking"
 MANIFEST = {
     "engine": "tlc ObjectVisibility histories + vh c18",
-    "technique": "TLC enumerates every interleaving of writer open/close (raw, lazy and pack writers, atomic SetEncodedObject) with lookups of each kind over the abstract ObjectVisibility spec; each history is replayed on real filesystem object storage under ExclusiveAccess / in-memory index / tiny cache / large-object options and every lookup kind must see every published object",
+    "technique": "TLC enumerates every interleaving of writer open/close (raw, lazy and pack writers, atomic SetEncodedObject, whole packs, packs superseded and deleted on the live handle and written again) with lookups of each kind over the abstract ObjectVisibility spec; each history is replayed on real filesystem object storage under ExclusiveAccess / in-memory index / tiny cache / large-object options and every lookup kind must see every published object",
     "text": "Exhaustive over all operation sequences of length 4 (thorough 5, plus simulated length 8) with 2 writers x 3 writer kinds x 2 objects x 5 lookup kinds; the read-your-writes property is a TLC invariant of the spec and the replay checks the implementation against the expected visibility after every step.",
     "note": "Objects are two blobs; packs hold a single object; memfs filesystem; failed Close promises nothing and ends the history.",
 }
@@ -13,7 +13,7 @@ CFG = """CONSTANTS Objs = {"o1", "o2"}  Writers = {"w1", "w2"}  Kinds = {"raw", 
  ReadKinds = {"has", "size", "get", "iter", "prefix"}  MaxOps = %d  EmitAll = TRUE
 INIT Init
 NEXT Next
-INVARIANTS TypeOK PublishedStaysVisible EmitHist
+INVARIANTS TypeOK PublishedStaysVisible LooseSurvivesDrop EmitHist
 CHECK_DEADLOCK FALSE
 """
 
@@ -32,7 +32,7 @@ def run(ctx):
         if k in seen:
             continue
         seen.add(k)
-        if any(s["op"] in ("close", "set") for s in h):
+        if any(s["op"] in ("close", "set", "setpack") for s in h):
             uniq.append(h)
     if not uniq:
         raise vlib.ToolingError("no histories")
